@@ -1,5 +1,5 @@
 From Coq Require Import List NArith ZArith Permutation.
-From SK Require Import lib.LGraph lib.StrJoin model.C08_Model proof.C08_Spec proof.C08_Faithful proof.C08_Nauty proof.C08_SigFun proof.C08_Sound proof.C08_Invariant.
+From SK Require Import lib.LGraph lib.StrJoin model.C08_Model proof.C08_Spec proof.C08_Faithful proof.C08_Nauty proof.C08_SigFun proof.C08_Sound proof.C08_Invariant proof.C08_Value.
 Import ListNotations.
 
 (** 1. Faithfulness: the canonical graph is the input relabelled by a map that is injective on its nodes;
@@ -115,3 +115,51 @@ Theorem C08_signature_function_nauty : forall (D : Type) (digest : str -> D) (g 
   digest (serialise (canon_nauty g)) = digest (serialise (canon_nauty h)).
 Proof. exact signature_function_nauty. Qed.
 Print Assumptions C08_signature_function_nauty.
+
+(** 6. Value objects built on signatures compare equal exactly for isomorphic content (exact back-end), and only
+       for isomorphic content (every back-end: that is 4).  SynGraph compares the signature of the raw graph,
+       CanonicalGraph the signature of its canonical graph, SynRule (after repair 6662066) the signatures of the
+       left and right fragments and of the reaction-centre graph.  Stated for the digests under the premise that
+       the digest does not collide on the strings compared, and for the digest-free verdicts
+       [syngraph_eqb] / [cangraph_eqb] / [synrule_eqb] of the model that the correspondence evaluates against
+       the wrappers' __eq__ on every run.  A rule is modelled as its three fragment graphs (rc, left, right);
+       the decomposition of an ITS graph into them and tuple-valued ITS orders are outside the model. *)
+Theorem C08_value_objects_syngraph : forall (D : Type) (digest : str -> D) (g h : graph),
+  wf g -> wf h -> els_ok g -> els_ok h ->
+  (digest (ser_nauty g) = digest (ser_nauty h) -> ser_nauty g = ser_nauty h) ->
+  (digest (ser_nauty g) = digest (ser_nauty h) <-> iso_cov g h).
+Proof. exact syngraph_nauty. Qed.
+Print Assumptions C08_value_objects_syngraph.
+
+Theorem C08_value_objects_canonicalgraph : forall (D : Type) (digest : str -> D) (g h : graph),
+  wf g -> wf h -> els_ok g -> els_ok h ->
+  (digest (ser_nauty (canon_nauty g)) = digest (ser_nauty (canon_nauty h)) ->
+   ser_nauty (canon_nauty g) = ser_nauty (canon_nauty h)) ->
+  (digest (ser_nauty (canon_nauty g)) = digest (ser_nauty (canon_nauty h)) <-> iso_cov g h).
+Proof. exact cangraph_nauty. Qed.
+Print Assumptions C08_value_objects_canonicalgraph.
+
+Theorem C08_value_objects_synrule : forall (D : Type) (digest : str -> D) (rc l r rc' l' r' : graph),
+  wf rc -> wf l -> wf r -> wf rc' -> wf l' -> wf r' ->
+  els_ok rc -> els_ok l -> els_ok r -> els_ok rc' -> els_ok l' -> els_ok r' ->
+  (forall g h, digest (ser_nauty g) = digest (ser_nauty h) -> ser_nauty g = ser_nauty h) ->
+  ((digest (ser_nauty l), digest (ser_nauty r)) = (digest (ser_nauty l'), digest (ser_nauty r'))
+   /\ digest (ser_nauty rc) = digest (ser_nauty rc')
+   <-> iso_cov l l' /\ iso_cov r r' /\ iso_cov rc rc').
+Proof. exact synrule_nauty_flat. Qed.
+Print Assumptions C08_value_objects_synrule.
+
+Theorem C08_value_objects_model_verdicts : forall g h : graph, wf g -> wf h -> els_ok g -> els_ok h ->
+  (syngraph_eqb ser_nauty g h = true <-> iso_cov g h) /\
+  (cangraph_eqb canon_nauty ser_nauty g h = true <-> iso_cov g h) /\
+  (syngraph_eqb ser_generic g h = true -> iso_cov g h) /\
+  (cangraph_eqb canon_generic ser_generic g h = true -> iso_cov g h).
+Proof. exact vo_model_verdicts. Qed.
+Print Assumptions C08_value_objects_model_verdicts.
+
+Theorem C08_value_objects_model_synrule : forall rc l r rc' l' r' : graph,
+  wf rc -> wf l -> wf r -> wf rc' -> wf l' -> wf r' ->
+  els_ok rc -> els_ok l -> els_ok r -> els_ok rc' -> els_ok l' -> els_ok r' ->
+  (synrule_eqb ser_nauty (rc, l, r) (rc', l', r') = true <-> iso_cov l l' /\ iso_cov r r' /\ iso_cov rc rc').
+Proof. exact synrule_eqb_nauty_flat. Qed.
+Print Assumptions C08_value_objects_model_synrule.
